@@ -501,3 +501,15 @@ _add("C20", "(6) the two-level DECODER TABLE and the encoder table at implementa
 _add("C01", "The decoder tables built by prefix.Decoder.Init from the canonical code of any complete length assignment decode "
      "every canonical code word (canon_table_decodes) - the link between the table walk of the Go code and the trie of "
      "the RFC model. A model of flate.Reader itself composing bit reader, tables and window is in progress.")
+
+_add("C04", "Added: THE PROPERTY FOR EVERY INPUT - bzip2_writer_is_lossless (Bzip2/StreamRoundTrip.v; 7 files, 2300 lines by a "
+     "proof sub-agent on top of the stage theorems): for every input and every level 1..9, no size bound, the decoder model "
+     "(the libbzip2 port) accepts the encoder model's output, returns the input and consumes every byte; concatenations "
+     "of encodings decode to the concatenation. New stages: bit-field plumbing, symbol map, selectors and their MTF, "
+     "delta-coded length tables, libbzip2's limit/base/perm decoding inverts the canonical code for every length vector "
+     "with Kraft sum <= 1 (read_symbol_correct), the 50-symbol tree switching loop, one block, the stream with its CRCs. "
+     "Since the encoder model is compared byte for byte with bzip2.Writer on every run and the decoder model with libbzip2, "
+     "this is the lossless / interoperable clause; split independence holds by construction of the model (a function of "
+     "level and data) and is checked on the implementation by the oracle.")
+_add("C03", "Added: concatenated Writer-produced members of any levels decode to the concatenation of their inputs, consumed to "
+     "the last byte, for every list of inputs (bzip2_concatenated_members_decode_to_concatenation).")
